@@ -1064,6 +1064,13 @@ func (a *Association) Close() error {
 
 	err := a.close()
 
+	// Writers blocked in blocking-write mode are released by readLoop on its way
+	// out. One of them may be running on readLoop itself (a write made from an
+	// OnBufferedAmountLow callback), which then never gets there: release them here.
+	a.lock.Lock()
+	a.unblockPendingWrites()
+	a.lock.Unlock()
+
 	// Wait for readLoop to end
 	<-a.readLoopCloseCh
 
@@ -1133,6 +1140,11 @@ func (a *Association) Abort(reason string) {
 	// unblock readLoop even if the underlying connection is half-open.
 	// We want Abort to return promptly during shutdown.
 	_ = a.netConn.SetReadDeadline(time.Now())
+
+	// see Close: a blocked writer may be running on readLoop itself
+	a.lock.Lock()
+	a.unblockPendingWrites()
+	a.lock.Unlock()
 
 	// Wait for readLoop to end
 	<-a.readLoopCloseCh
